@@ -261,6 +261,7 @@ class Space:
                 self._assess = jax.jit(assess)
         self.n_cont = prog.n_cont
         self._edit_raw = edit
+        self._sim_raw, self._gen_raw, self._assess_raw = sim, gen, assess
         self._static_edit = {}
 
     # ------------------------------------------------------------------------------------
